@@ -224,6 +224,15 @@ FileScenarios(z) == LET recs == ndJsonDeserialize(IOEnv.SCN) IN {recs[k] : k \in
 \* computes the initial states (a zero-arity constant would be evaluated once per TLC worker)
 InitOver(S) == \E s \in S : InitWith(s)
 
-Emit == Done => PrintT(<<"REPLAY", ToJson([scn |-> scn, out |-> out])>>)
+\* the observation stream in a compact form: ["p", label, values] print, ["+", id] job enqueued,
+\* [">", id] job runs, ["k", op] rejection tracker call, ["P", phase] phase separator
+Compact(o) == [k \in 1..Len(o) |->
+                 CASE o[k].e = "print" -> <<"p", o[k].l, o[k].vs>>
+                   [] o[k].e = "enq"   -> <<"+", o[k].id>>
+                   [] o[k].e = "run"   -> <<">", o[k].id>>
+                   [] o[k].e = "trk"   -> <<"k", o[k].op>>
+                   [] o[k].e = "phase" -> <<"P", o[k].p>>]
+
+Emit == Done => PrintT(<<"REPLAY", ToJson([scn |-> scn, out |-> Compact(out)])>>)
 EmitInv == Emit
 =============================================================================
